@@ -1,6 +1,7 @@
 (* C02 — The returned tree holds exactly the matches on the successful path, in order. *)
 From PegV Require Import Utf8 Utf8Facts State Terminals TerminalsSpec TerminalsOk Syntax Fields
   FieldsFacts GetFieldsFacts Literals LiteralsFacts Model Spec ShapeFacts ErrLog Sim Conform ConformX MemoEq MemoSpec Extracted.
+From PegV Require CleanFrame Local LocalConform.
 
 Theorem C02_facts :
   rec_le Extracted.scfg = true /\ Extracted.tcfg = term_cfg_expected /\
@@ -85,3 +86,22 @@ Proof.
   change term_cfg_expected with Extracted.tcfg in C. rewrite E in C. exact C.
 Qed.
 Print Assumptions C02_tree_memoized.
+
+(* the same for the unmarked part of ANY grammar (Local.v: marked rules elsewhere cannot influence it): the tree
+   of a rule from which no marked rule is reachable is the tree of the specification of the unmarked grammar *)
+Theorem C02_tree_clean_part :
+  forall (ustate : Type) (hk : hooks ustate) (shk : shooks) (g : grammar) (clean : name -> bool),
+    pure_hooks ustate hk shk ->
+    (forall n, clean n = true -> CleanFrame.rule_clean g clean n) ->
+    (forall n r, clean n = true -> find_rule g n = Some r -> CleanFrame.eclean clean (r_def r) = true) ->
+    clean n_Whitespace = true ->
+    forall fuel rule_name cs u v st', clean rule_name = true -> all_scalar cs ->
+      fst (m_parse ustate Extracted.scfg Extracted.tcfg Extracted.fcfg Extracted.rcfg hk g
+                   fuel rule_name (encode_str cs) u) = MOk v st' ->
+      exists cs' l, s_parse Extracted.fcfg shk (Local.unmarkb true g) true fuel rule_name cs = SOk v cs' (off st') l.
+Proof.
+  intros ustate hk shk g clean Hp Hc Hi Hw fuel rule_name cs u v st' L Hs E.
+  pose proof (LocalConform.clean_conforms ustate hk shk g clean Hp Hc Hi Hw fuel rule_name cs u L Hs) as C.
+  rewrite E in C. destruct C as [m [cs' [l [E1 _]]]]. eauto.
+Qed.
+Print Assumptions C02_tree_clean_part.
